@@ -649,6 +649,15 @@ func (g *genState) genStructPair(imported bool) (src, dst string, fields []Field
 	return
 }
 
+// nestedMembers: for member-wise copied struct pairs, (member of the nested source struct, member of the nested destination)
+var nestedMembers = map[string][][2]string{
+	"Inner2":    {{"B", "C"}, {"A", "A"}, {"A", "B"}},
+	"Deep2":     {{"Num", "Tag"}, {"Num", "Num"}},
+	"ext.Pub2":  {{"Name", "Name"}, {"Count", "Name"}},
+	"LocalItem": {{"Note", "Note"}, {"ID", "Note"}},
+	"LocalPod":  {{"Name", "Kind"}, {"Name", "Name"}},
+}
+
 // cloneFields: the fields of Doc (LocalTypes), for methods converting a struct type to itself.
 var cloneFields = []FieldDecl{
 	{Name: "Title", Type: "string", Pair: FieldPair{"identical", "string", "string", "field"}, SrcName: "Title"},
@@ -755,6 +764,17 @@ func (g *genState) genMethod(idx int) Method {
 	}
 	// explicit notations over the destination fields
 	for _, f := range fields {
+		if nm, ok := nestedMembers[f.Pair.Dst]; ok && f.Pair.Class == "nested" && g.opt.Explicit > 0 && g.rng.Intn(3) == 0 {
+			// a notation on a member of a member-wise copied struct whose source names a member of the
+			// NESTED source struct: sources are resolved from the root operand, so it is not found there
+			pr := nm[g.rng.Intn(len(nm))]
+			if g.rng.Intn(2) == 0 {
+				m.Notations = append(m.Notations, ":map "+pr[0]+" "+f.Name+"."+pr[1])
+			} else {
+				m.Notations = append(m.Notations, ":conv localConv "+pr[0]+" "+f.Name+"."+pr[1])
+			}
+			m.Features = append(m.Features, "nested-notation-naming-a-nested-source-member")
+		}
 		if g.rng.Float64() >= g.opt.Explicit/2 {
 			continue
 		}
@@ -837,7 +857,7 @@ func (g *genState) genMethod(idx int) Method {
 			}
 		case 5:
 			if len(m.Args) > 0 {
-				k := 1 + g.rng.Intn(len(m.Args)+2)
+				k := g.rng.Intn(len(m.Args) + 3) // 0 .. len+2: below, inside and beyond the arguments
 				suffix := ""
 				if g.rng.Intn(4) == 0 {
 					suffix = g.pick([]string{".V", ".Name()", ".A", ".Code()", ".Plain()", ".age", ".Name", ".N"})
@@ -852,9 +872,10 @@ func (g *genState) genMethod(idx int) Method {
 			case 0:
 				m.Notations = append(m.Notations, ":skip "+path+"."+g.pick(nested))
 			case 1:
-				m.Notations = append(m.Notations, ":map SpareInt "+path+"."+g.pick(nested))
+				// sources are resolved from the root operand: a name that exists only in the nested source struct is not found
+				m.Notations = append(m.Notations, ":map "+g.pick([]string{"SpareInt", "SpareInt", "A", "B", "Name", "Count", "V"})+" "+path+"."+g.pick(nested))
 			default:
-				m.Notations = append(m.Notations, ":conv localConv SpareInt "+path+"."+g.pick(nested))
+				m.Notations = append(m.Notations, ":conv localConv "+g.pick([]string{"SpareInt", "SpareInt", "A", "Count", "V"})+" "+path+"."+g.pick(nested))
 			}
 			m.Features = append(m.Features, "nested-notation")
 		case 7:
@@ -1371,6 +1392,12 @@ func (g *genState) malform() {
 					m.Notations = append(m.Notations[:pos], append([]string{line}, m.Notations[pos:]...)...)
 				}
 				g.feat("malformed-notation")
+				if fs := g.c.Struct[m.DstType]; len(fs) > 0 && rng.Intn(5) == 0 {
+					// additional-argument references at the edges of their range, on a real destination field
+					ref := g.pick([]string{"$0", "$0.X", "$-1", "$+1", "$00", "$1", "$2", "$3", "$9", "$99999999999999999999", "$1.", "$ 1", "$2.Name()"})
+					m.Notations = append(m.Notations, ":map "+ref+" "+fs[rng.Intn(len(fs))].Name)
+					g.feat("argument-reference-edge")
+				}
 				// the two-step recipes for the stateful matcher
 				if rng.Intn(6) == 0 {
 					m.Notations = append(m.Notations, ":skip /\\pL/", ":case:off")
